@@ -95,6 +95,19 @@ CHECKS = {
         note=(TB_COMMON + "K.learning_phase/K.set_learning_phase are harness stubs (absent under the pinned Keras 3: known finding). "
               "The only probabilistic assumption is that P(u <= t) = t for the uniform law; a 4096-draw statistical run is included as a test, not as proof."),
         technique="Coq proof with the random draw universally quantified + derandomised differential correspondence"),
+    "C06": dict(
+        category="proof",
+        text=("Coq theorems (Properties/C06.v) over an expression language with dual-number semantics: for EVERY surrogate, factor and "
+              "quantized expression the STE form has the surrogate's gradient and the interpolated forward value, the non-STE form has "
+              "(1-f) times it, round-through has the value round(e) and the gradient of e; instances: identity (fixed point, po2, "
+              "constant-scale binary/ternary), (leaky, bounded) ReLU, quantized_linear (1 inside the clip range, 0 outside), tanh' for unscaled "
+              "binary/ternary (oracle). tf.GradientTape gradients of the implementation are compared with the dual-number evaluation of the "
+              "hand-written return expression at random points and at every kink +-1ulp."),
+        design_ref="DESIGN.md section 5 C06, section 10",
+        note=(TB_COMMON + "TensorFlow's differentiation conventions are encoded in Base/Texp.v (clip closed interval, relu'(0)=alpha, "
+              "stop_gradient, where by forward value) and re-validated on every run. The texp per quantizer is a hand transcription of the "
+              "return expression. bernoulli/stochastic_*/ulaw/hswish not covered."),
+        technique="Coq proof over a dual-number expression semantics + GradientTape differential correspondence"),
 }
 
 NOT_YET = "check not built yet in this development (design in DESIGN.md section 5); not a claim that proof is inapplicable"
